@@ -80,7 +80,8 @@ func main() {
 		out := swapSync(f, src, "")
 		emit(f, out)
 	}
-	emit("cache/zz_verifsim.go", []byte(cacheAccessor("cache")))
+	clockStruct, clockType := findClockField(cacheFiles)
+	emit("cache/zz_verifsim.go", []byte(cacheAccessor("cache", clockStruct, clockType)))
 
 	// 3. shell: swap pool types; accessor listing the pools.
 	var pools []string
@@ -115,7 +116,7 @@ func main() {
 		out := swapSync(f, src, modPath+"/heapq")
 		emit("verifsim/cachefix/"+filepath.Base(f), out)
 	}
-	emit("verifsim/cachefix/zz_verifsim.go", []byte(cacheAccessor("cache")))
+	emit("verifsim/cachefix/zz_verifsim.go", []byte(cacheAccessor("cache", clockStruct, clockType)))
 
 	// 6. info file for the harness.
 	info := fmt.Sprintf("package simsync\n\n// TwinPatched reports whether the differential twin carries the KF1 repair.\nconst TwinPatched = %v\n", rep.TwinPatched)
@@ -397,8 +398,71 @@ func squash(s string) string {
 	return strings.Join(strings.Fields(s), "")
 }
 
-func cacheAccessor(pkg string) string {
+// findClockField looks for a generic struct type with two type parameters and
+// an integer field named "clock" (the LRU store's logical clock). It returns the
+// struct's name and the field's type, or "", "".
+func findClockField(files []string) (string, string) {
+	for _, name := range files {
+		_, f := parse(name, read(name))
+		for _, d := range f.Decls {
+			gd, ok := d.(*ast.GenDecl)
+			if !ok || gd.Tok != token.TYPE {
+				continue
+			}
+			for _, sp := range gd.Specs {
+				ts := sp.(*ast.TypeSpec)
+				st, ok := ts.Type.(*ast.StructType)
+				if !ok || ts.TypeParams == nil || ts.TypeParams.NumFields() != 2 {
+					continue
+				}
+				for _, fld := range st.Fields.List {
+					id, ok := fld.Type.(*ast.Ident)
+					if !ok {
+						continue
+					}
+					switch id.Name {
+					case "int", "int32", "int64", "uint", "uint32", "uint64":
+					default:
+						continue
+					}
+					for _, n := range fld.Names {
+						if n.Name == "clock" {
+							rep.Rewrites["cache.clock-accessor"]++
+							return ts.Name.Name, id.Name
+						}
+					}
+				}
+			}
+		}
+	}
+	rep.Warnings = append(rep.Warnings, "cache: no integer field named clock in a two-parameter generic struct; simulated uptime is not available")
+	return "", ""
+}
+
+func cacheAccessor(pkg, clockStruct, clockType string) string {
+	advance := `
+// VerifAdvanceClock is not available for this store (no logical clock found).
+func VerifAdvanceClock[K comparable, V any](cfg Config[K, V], delta int64) bool { return false }
+`
+	if clockStruct != "" {
+		advance = `
+// VerifAdvanceClock simulates earlier use of the store: it advances the store's
+// logical clock by delta, as delta earlier accesses would have. It exists only
+// in the /verif build overlay.
+func VerifAdvanceClock[K comparable, V any](cfg Config[K, V], delta int64) bool {
+	s, ok := cfg.store.(*` + clockStruct + `[K, V])
+	if !ok {
+		return false
+	}
+	// One modular addition: a narrow clock ends up where delta single steps
+	// would have left it.
+	s.clock += ` + clockType + `(delta)
+	return true
+}
+`
+	}
 	return `package ` + pkg + `
+` + advance + `
 
 // VerifWrapStore returns cfg with its store replaced by wrap(store). It exists
 // only in the /verif build overlay: it lets the simulator put a yielding wrapper
